@@ -777,16 +777,17 @@ def jobs(name, tier):
         bounds = {"max_ops": n, "ops": alpha + ["end"], "partitions": [1, 2, 3], "retention": rets,
                   "retention_check_interval_s": 1.5, "append_latency_s": 0.25, "read_latency_s": 0.125, "keys": KEYS}
     elif name == "group":
-        n = 6
-        full = not quick
+        # quick: membership toggles (join a non-member / leave a member), <= 6 ops.
+        # thorough: toggles <= 7 ops, plus the full alphabet incl. redundant joins / leaves, <= 5 ops.
+        fams = [(False, 6, 1)] if quick else [(False, 7, 2), (True, 5, 2)]
         alpha = [a + m for m in "ABC" for a in "jl"]
-        for P in (1, 2, 3, 4):
-            for strat in ("Range", "RoundRobin", "Sticky"):
-                for rdelay in (0.25, 1.5):
-                    cfg = {"P": P, "strategy": strat, "rdelay": rdelay, "full": full}
-                    out += _prefix_jobs("group", cfg, alpha, 1 if quick else 2, n)
-        bounds = {"max_ops": n, "members": 3, "ops": "join/leave of A,B,C" + (" incl. redundant ones" if full else
-                                                                              " (membership toggles)"),
+        for full, n, plen in fams:
+            for P in (1, 2, 3, 4):
+                for strat in ("Range", "RoundRobin", "Sticky"):
+                    for rdelay in (0.25, 1.5):
+                        cfg = {"P": P, "strategy": strat, "rdelay": rdelay, "full": full}
+                        out += _prefix_jobs("group", cfg, alpha, plen, n)
+        bounds = {"members": 3, "families (redundant joins/leaves allowed, max_ops)": [[f, n] for f, n, _ in fams],
                   "partitions": [1, 2, 3, 4], "strategies": ["Range", "RoundRobin", "Sticky"],
                   "rebalance_delay_s": [0.25, 1.5]}
     elif name == "commit":
